@@ -57,3 +57,7 @@ package lang
 //@   kinds instr world ssa.Instruction except MultiConvert, DebugRef, SliceToArrayPointer
 //@     ensures dispatch: called(visitor.Do$N, $x)
 //@   ensures dispatch.SliceToArrayPointer: istype(instr, *ssa.SliceToArrayPointer) ==> called(visitor.DoSliceArrayToPointer, instr.(*ssa.SliceToArrayPointer))
+
+//@ func IsNillableType
+//@   property C14
+//@   pure
